@@ -68,8 +68,6 @@ func Load(patterns []string, options ...func(c *packages.Config)) (*Universe, er
 			}
 		}
 
-		pkg := newPkg(p, u)
-
 		for k := range p.Imports {
 			importedPkg := p.Imports[k]
 
@@ -77,6 +75,9 @@ func Load(patterns []string, options ...func(c *packages.Config)) (*Universe, er
 				register(importedPkg)
 			}
 		}
+
+		// after its imports: newPkg resolves Imports() against the packages registered so far
+		pkg := newPkg(p, u)
 
 		u.pkgs[p.PkgPath] = pkg
 
